@@ -89,9 +89,22 @@ pub struct Run {
 }
 
 pub fn run_word(c: &Case) -> Run {
-    let before = util::now_unix_nanos();
+    run_word_at(c, None)
+}
+
+/// `virtual_now`: the builder is created at this instant of the virtual clock (hook verif::set_now); the bracket collapses to it
+pub fn run_word_at(c: &Case, virtual_now: Option<i128>) -> Run {
+    if virtual_now.is_some() {
+        rusty_paseto::verif::set_now(virtual_now);
+    }
+    let mut before = util::now_unix_nanos();
     let outs = batteries_run(c.p, &c.key, &c.ops);
-    let after = util::now_unix_nanos();
+    let mut after = util::now_unix_nanos();
+    if let Some(v) = virtual_now {
+        rusty_paseto::verif::set_now(None);
+        before = v;
+        after = v;
+    }
     // batteries_run pushes one entry per Build (and one per failing claim constructor: none with our values)
     let mut builds = Vec::new();
     let mut footer: Option<String> = None;
@@ -521,6 +534,31 @@ pub fn run(prop: &str, tier: &str, seed: u64) -> Report {
         r.count(&format!("random words {}", p.name()));
     });
     total.merge(r);
+    // builders created at MANY instants of the virtual clock: defaults must be exactly (now+1h, now, now)
+    if prop == "C13" {
+        let mut vn: Vec<i128> = [1i128, 951_865_199, 951_868_799, 978_303_600, 978_307_199, 2_147_480_048, 2_147_483_647, 4_102_441_200, 4_102_444_799, 9_223_368_436, 9_223_372_036, 32_503_676_400, 221_845_388_399]
+            .iter()
+            .map(|s| s * 1_000_000_000)
+            .collect();
+        let mut rng = Rng::new(seed, "c13-virtual-now", 0);
+        for _ in 0..(if thorough { 20_000 } else { 600 }) {
+            vn.push((rng.next() % 221_000_000_000) as i128 * 1_000_000_000 + (rng.next() % 1_000_000_000) as i128);
+        }
+        vn.push(1_790_000_000_999_999_999);
+        let words: Vec<Vec<usize>> = vec![vec![], vec![3], vec![11, 11], vec![5], vec![1, 11, 0], vec![4, 11, 5]];
+        let r = parallel(vn.len(), util::threads(), |i, r| {
+            let p = [P::V4L, P::V4L, P::V2L, P::V4P, P::V3L, P::V1L][i % 6];
+            let c = Case { p, key: pools.key(p, i % pools.count(p)), ops: syms_to_ops(prop, &words[i % words.len()]) };
+            let run = run_word_at(&c, Some(vn[i]));
+            let before = r.violations_total;
+            check_c13(&c, &run, r);
+            if r.violations_total == before {
+                r.count("builders created on the virtual clock conform");
+            }
+        });
+        total.merge(r);
+        total.require("builders created on the virtual clock conform", 300);
+    }
     total.require("exhaustive words (v4.local)", totalw as u64);
     for &p in &ALL {
         if prop == "C13" {
@@ -550,5 +588,5 @@ pub fn replay(prop: &str, case: &Value) -> Report {
     r
 }
 
-pub const RULE_C13: &str = "call words over {set exp, set nbf, set iat, set iss, set custom a, set custom 'Exp' / 'IAT' / 'Nbf' (custom claims that equal a time claim up to case), acknowledge, set_footer, set_implicit_assertion, build} (a final build is appended to words that do not end in one): ALL words up to length 4 (thorough 6) on v4.local, seeded random words up to length 12 on all 8 protocols. Every token of every successful build (first and later builds of one builder) is read back and compared with a state machine written from the property: exp present iff not acknowledged; default exp == creation + 3600.000000000 s, default iat == default nbf within the clock bracket taken around the run (5 ms slack); caller-supplied exp/iat/nbf values present. distinct_nontrivial = distinct (protocol, word, build number) that built and conformed";
+pub const RULE_C13: &str = "call words over {set exp, set nbf, set iat, set iss, set custom a, set custom 'Exp' / 'IAT' / 'Nbf' (custom claims that equal a time claim up to case), acknowledge, set_footer, set_implicit_assertion, build} (a final build is appended to words that do not end in one): ALL words up to length 4 (thorough 6) on v4.local, seeded random words up to length 12 on all 8 protocols; plus 614 (thorough 20014) builders created at instants of a VIRTUAL clock (hook verif::set_now: year/leap-day boundaries, 2^31 s, the i64-ns limit, up to year 8999, random, odd sub-second parts) whose defaults must be exactly (now+1h, now, now). Every token of every successful build (first and later builds of one builder) is read back and compared with a state machine written from the property: exp present iff not acknowledged; default exp == creation + 3600.000000000 s, default iat == default nbf within the clock bracket taken around the run (5 ms slack); caller-supplied exp/iat/nbf values present. distinct_nontrivial = distinct (protocol, word, build number) that built and conformed";
 pub const RULE_C17: &str = "call words over {set_claim(k) for k in exp,nbf,iat,iss,sub,aud,jti,a,b,userId,Role,role; acknowledge; set_footer; build} (a final build appended): ALL words up to length 4 (thorough 5) on v4.local, seeded random words up to length 40 on all 8 protocols; every occurrence of a setter uses a different value. Model: once any key has been supplied twice every build must fail with the duplicate-claim error naming one of the duplicated keys; otherwise every build must succeed and carry the caller's values; exp supplied after the acknowledgement may be refused as duplicate or ignored. distinct_nontrivial = distinct (protocol, word, build number, outcome class)";
